@@ -2,6 +2,7 @@ SPECIFICATION Spec
 CONSTANTS
     Handlers = {h1, h2, h3}
     MaxSignals = 2
+    SigBuf = 2
     CheckBeforeSelect = FALSE
 INVARIANTS CountMatches CountNeverNegative NeverStuck
 PROPERTIES NoEarlyReturn GracefulCompletes
